@@ -522,6 +522,10 @@ class ScriptPolicy(RetryPolicy):
         w = self.w
         b = self.should[min(attempt - 1, len(self.should) - 1)] if attempt >= 1 else False
         w.rec("policy_should", policy=self.name, attempt=attempt, fdone=future.done(), value=b)
+        if isinstance(b, list) and b[0] == "slow":
+            # ["slow", d, answer]: the policy takes d virtual seconds to make up its mind
+            vsched.v_sleep(b[1])
+            b = b[2]
         if b == "raise":
             raise Fault("should_retry")
         return b
